@@ -364,7 +364,8 @@ def run : IO Unit := do
   let s ← loopLines (← IO.getStdin) out ({} : S) stepAll
   let evs := s.evs.toList
   for (nm, v) in [("C01", Ivy.Mon.C01.verdict evs), ("C02", Ivy.Mon.C02.verdict evs), ("C03", Ivy.Mon.C03.verdict evs),
-                  ("C04", Ivy.Mon.C04.verdict evs), ("C06", Ivy.Mon.C06.verdict evs), ("C07", Ivy.Mon.C07.verdict evs)] do
+                  ("C04", Ivy.Mon.C04.verdict evs), ("C06", Ivy.Mon.C06.verdict evs), ("C07", Ivy.Mon.C07.verdict evs),
+                  ("C07spin", Ivy.Mon.C07.spinVerdict evs)] do
     match v with
     | none => out.putStrLn s!"MON {nm} ok"
     | some e => out.putStrLn s!"MON {nm} VIOLATION {e}"
